@@ -25,7 +25,7 @@ pub fn designated(v: &VariantSpec, target: &str) -> Option<usize> {
     if v.fields.len() == 1 {
         return Some(0);
     }
-    let same: Vec<usize> = v.fields.iter().enumerate().filter(|(_, f)| f.ty.inst == target).map(|(i, _)| i).collect();
+    let same: Vec<usize> = v.fields.iter().enumerate().filter(|(_, f)| crate::known::erase_lifetimes(&f.ty.src) == crate::known::erase_lifetimes(target)).map(|(i, _)| i).collect();
     if same.len() == 1 {
         Some(same[0])
     } else {
